@@ -234,6 +234,16 @@ package vanguard
 //@   dispatch (io.Writer).Write: none
 //@   requires endCall(op, end, writer)
 //@   modifies #LIB
+// C09: the body of a REST backend's successful response is decoded by the codec whatever its length -
+// an empty or cut-off body is the codec's to reject, it is never turned into an empty message here
+// (reflection calls unmodelled: implicit obligations of this function are assumed, not claimed).
+//@ func (restServerProtocol).prepareUnmarshalledResponse
+//@   opt implicit=assume
+//@   track um = (vanguard.Codec).Unmarshal
+//@   track umf = (vanguard.RESTCodec).UnmarshalField
+//@   track sets = (google.golang.org/protobuf/reflect/protoreflect.Message).Set
+//@   ensures[C09,C01] r0 == nil ==> um + umf == 1 || sets == 2
+
 // C03: a Connect streaming response ends with exactly one end-of-stream frame, whatever its size
 //@ func (connectStreamClientProtocol).encodeEnd
 //@   dispatch (io.Writer).Write: none
